@@ -175,6 +175,9 @@ impl fmt::Display for FileLines {
 /// and ordered by their start point.
 fn normalize_ranges(ranges: &mut HashMap<FileName, Vec<Range>>) {
     for ranges in ranges.values_mut() {
+        // An inverted (empty) range selects nothing, but left in place it can sort between
+        // two overlapping or adjacent ranges and keep them from being merged.
+        ranges.retain(|r| !r.is_empty());
         ranges.sort();
         let mut result = vec![];
         let mut iter = ranges.iter_mut().peekable();
